@@ -49,8 +49,8 @@ uint64_t MHD_monotonic_msec_counter (void) { return vclock_ms; }
 /* ---------------------------------------------------------------- config */
 static struct {
   char mode[16]; size_t mem, incr; int lvl; unsigned limit, perip, timeout;
-  int upgrade, suspend, have_lvl; unsigned nonce_tbl;
-} cfg = { "select", 0, 0, 0, 0, 0, 0, 0, 0, 0, 0 };
+  int upgrade, suspend, have_lvl; unsigned nonce_tbl; int sigpipe;
+} cfg = { "select", 0, 0, 0, 0, 0, 0, 0, 0, 0, 0, 0 };
 
 static struct MHD_Daemon *d;
 
@@ -642,6 +642,8 @@ static void start_daemon (void)
   if (cfg.perip) { ops[n].option = MHD_OPTION_PER_IP_CONNECTION_LIMIT; ops[n].value = cfg.perip; ops[n++].ptr_value = NULL; }
   if (cfg.timeout) { ops[n].option = MHD_OPTION_CONNECTION_TIMEOUT; ops[n].value = cfg.timeout; ops[n++].ptr_value = NULL; }
   if (cfg.nonce_tbl) { ops[n].option = MHD_OPTION_NONCE_NC_SIZE; ops[n].value = cfg.nonce_tbl; ops[n++].ptr_value = NULL; }
+  /* the harness ignores SIGPIPE: with this option file responses go through sendfile() also in the application's thread */
+  if (cfg.sigpipe) { ops[n].option = MHD_OPTION_SIGPIPE_HANDLED_BY_APP; ops[n].value = 1; ops[n++].ptr_value = NULL; }
   ops[n].option = MHD_OPTION_NOTIFY_COMPLETED; ops[n].value = (intptr_t) &completed; ops[n++].ptr_value = NULL;
   ops[n].option = MHD_OPTION_NOTIFY_CONNECTION; ops[n].value = (intptr_t) &notify_conn; ops[n++].ptr_value = NULL;
   ops[n].option = MHD_OPTION_URI_LOG_CALLBACK; ops[n].value = (intptr_t) &uri_log; ops[n++].ptr_value = NULL;
@@ -694,6 +696,7 @@ int main (void)
         else if (kv (l.w[i], "upgrade", &v)) cfg.upgrade = atoi (v);
         else if (kv (l.w[i], "suspend", &v)) cfg.suspend = atoi (v);
         else if (kv (l.w[i], "nonce_tbl", &v)) cfg.nonce_tbl = (unsigned) atoi (v);
+        else if (kv (l.w[i], "sigpipe", &v)) cfg.sigpipe = atoi (v);
       }
       out ("ok"); continue;
     }
